@@ -5,6 +5,7 @@ import common as K
 import sqlmod
 import sqlrules
 import tables
+import affine
 
 INTACT = ["pubkey", "kind", "created_at", "content", "tags", "event"]
 WRITE_CALLS = ("save_message", "save_processed_message")
@@ -148,6 +149,63 @@ def clause_lookback(prog, rep, scope):
                   "the outer-layer epoch fallback window does not depend on MdkConfig.max_past_epochs (constant lookback): with a larger "
                   "configured window, messages OpenMLS could still decrypt are lost at the wrapper layer", c.loc())
     rep.floor("lookback-from-config", "iterated past-epoch lookup", 1 if any_loop else 0, 1)
+    # window arithmetic: the epochs tried are exactly current-1 down to current-L (L = the lookback), i.e. L epochs
+    for c in sites:
+        f = c.fn
+        a = c.args[-1]
+        if "p" not in a:
+            continue
+        og = A.origins(prog, f, a["p"][0], scope=None, max_frames=0)
+        ranges = [x for x in og.calls if x.name == "new" and "RangeInclusive" in (x.self_ty or x.path or "")]
+        range_aggs = [(bb, s2) for bb, s2 in f.stmts() if s2.get("k") == "agg" and last_seg(s2.get("adt")) in ("Range", "RangeInclusive")
+                      and s2["d"][0] in f.depends_on(a["p"][0])[0]]
+        if not ranges and not range_aggs:
+            continue
+        # symbols: current epoch and the lookback parameter (the u64 parameter of the function)
+        u64_params = [l for l in range(1, f.nargs + 1) if f.locals[l] == "u64"]
+        if len(u64_params) != 1:
+            rep.note("window arithmetic: cannot identify the lookback parameter of %s" % f.label())
+            continue
+        seeds = {u64_params[0]: affine.sym("L")}
+
+        def call_syms(x):
+            if x.name == "as_u64" and x.args and "p" in x.args[0]:
+                dep, calls, _ = f.depends_on(x.args[0]["p"][0])
+                if any(y.name == "epoch" and last_seg(y.self_adt) == "MlsGroup" for y in calls):
+                    return affine.sym("cur")
+            return None
+        env = affine.evaluate(f, seeds, call_syms)
+        verdicts = []
+        for r in ranges:
+            lo = env.get(r.args[0]["p"][0]) if "p" in r.args[0] else None
+            hi = env.get(r.args[1]["p"][0]) if "p" in r.args[1] else None
+            if lo is None or hi is None:
+                verdicts.append((None, "range bounds are not affine in (current epoch, lookback)", r.loc()))
+                continue
+            count = affine.add(affine.add(hi, lo, -1), affine.const(1))
+            verdicts.append((count == affine.sym("L") and hi == affine.add(affine.sym("cur"), affine.const(1), -1),
+                             "inclusive range [%s ..= %s]" % (lo, hi), r.loc()))
+        for bb, s2 in range_aggs:
+            ops = s2["o"]
+            lo = env.get(ops[0]["p"][0]) if "p" in ops[0] else None
+            hi = env.get(ops[1]["p"][0]) if "p" in ops[1] else None
+            if lo is None or hi is None:
+                verdicts.append((None, "range bounds are not affine in (current epoch, lookback)", "%s:%s" % (f.file, s2.get("line"))))
+                continue
+            incl = last_seg(s2.get("adt")) == "RangeInclusive"
+            count = affine.add(affine.add(hi, lo, -1), affine.const(1 if incl else 0))
+            top = hi if incl else affine.add(hi, affine.const(1), -1)
+            verdicts.append((count == affine.sym("L") and top == affine.add(affine.sym("cur"), affine.const(1), -1),
+                             "%s range [%s .. %s]" % ("inclusive" if incl else "exclusive", lo, hi), "%s:%s" % (f.file, s2.get("line"))))
+        for ok, what, loc in verdicts:
+            if ok is None:
+                rep.violation("lookback-window-arithmetic", "MDK::process_message/past-epoch-range", what, loc)
+            else:
+                rep.check(ok, "lookback-window-arithmetic", "MDK::process_message/past-epoch-range",
+                          "the fallback tries exactly the L epochs current-1 .. current-L (%s), in the regime current >= L >= 1" % what,
+                          "the outer-layer fallback does not try exactly the epochs current-1 down to current-L (%s): a message that is exactly "
+                          "L epochs late (inside the configured window) can no longer be opened" % what, loc)
+        rep.floor("lookback-window-arithmetic", "epoch range constructions", len(verdicts), 1)
     # inventory: every public MdkConfig field is read by non-test code
     cfg = prog.adt("MdkConfig", crate="mdk_core")
     read = set()
